@@ -50,10 +50,12 @@ func famByName(fams []generator.FamilyGenerator, obj interface{}) map[string]*ks
 // family generators (shim) and BuildInfoLabels, compared with the reference pairing.
 func TestC20(t *testing.T) {
 	run := h.NewRun("C20", "model_checking")
-	alphabet := []string{"foo", "a.b", "a_b", "a-b", "app.kubernetes.io/name", v1.ExtendedDaemonSetNameLabelKey, "9x"}
+	// keys changed by sanitising, keys colliding after sanitising, and keys whose relative ORDER changes under
+	// sanitising ('-', '.', '/' sort before digits and upper case, their replacement '_' sorts after them)
+	alphabet := []string{"foo", "a.b", "a_b", "a-b", "a/b", "a2", "aB", "app.kubernetes.io/name", v1.ExtendedDaemonSetNameLabelKey, "9x"}
 	maxKeys := 4
 	if h.Thorough() {
-		maxKeys = 7
+		maxKeys = len(alphabet)
 	}
 	counters := []int32{0, 1, 7}
 	var labelMaps []map[string]string
